@@ -68,6 +68,15 @@ def run_case(wire, op, plan, cap, before=()):
     # for every segmentation of one pair, so that outcomes stay comparable
     h = zlib.crc32(wire + op.encode())
     dbg = h % 3 == 0
+    if (h // 15) % 7 == 0:
+        # history in the process: another client object was dropped by its server in the middle of a literal (its
+        # operation fails, correctly); nothing of that may reach this client
+        def dropper(w, sock):
+            sock.eof = True
+            return b"{40}\r\n# old script of someone"
+        c0, s0 = M.connected_client(dropper, plan=lambda b: [6, 5, 7])      # the literal arrives in pieces, then EOF
+        with contextlib.redirect_stdout(io.StringIO()):
+            M.call(c0.getscript, "x")
     c, s = M.connected_client(server, plan=plan, cap=cap, debug=dbg)
     # ... and two fifths with a small Client.read_size (a documented class attribute), so that replies whose length
     # is an exact multiple of it, or that end exactly at a block boundary, occur in every family
@@ -336,6 +345,39 @@ def big_literal_cases(prop, tier, seed):
     return n, recs
 
 
+def big_status_cases(prop, tier, seed):
+    """Status replies whose text is far longer than TLC's corpus holds (the reader model is quadratic in the reply
+    length): judged by the same rule, MSClient!RefStatus (result by status, errcode = the response code, errmsg = the
+    text), unsegmented (C09) and under a few schedules (C05).  RFC 5804 limits *quoted* strings to 1024 octets; a literal
+    has no limit, so the long texts are sent as literals (and one quoted text of exactly 1024 octets)."""
+    rng = random.Random(seed + 109)
+    recs, n = [], 0
+    long1 = "".join("line %d: unexpected token near {%d}\r\n" % (k, k) for k in range(1, 40)).encode()
+    texts = [("l", long1), ("l", b"y" * 1025), ("l", b"z" * 5000 + b"\r\n"), ("q", b"q" * 1024)]
+    for st in ("NO", "OK"):
+        for code in (b"", b"QUOTA/MAXSIZE", b"WARNINGS"):
+            for enc, text in texts:
+                head = st.encode() + (b" (" + code + b")" if code else b"")
+                wire = head + (b" {%d}\r\n" % len(text) + text if enc == "l" else b' "' + text + b'"') + b"\r\n"
+                r = {"text": {"e": enc}, "st": st}
+                o = [[], "no" if st == "NO" else "ok", list(code), list(text), False]
+                for op in ("putscript", "havespace", "getscript", "listscripts") if st == "NO" else ("setactive", "checkscript"):
+                    base = run_case(wire, op, None, 0)
+                    n += 1
+                    if prop == "C09" and not match_status(o, base, op, r):
+                        recs.append({"reply": "long text %d octets" % len(text), "wire": repr(wire[:70]), "op": op, "schedule": "unsegmented",
+                                     "obs": repr(base)[:300], "expl": None, "what": "result does not mirror the reply"})
+                    if prop == "C05":
+                        for plan in [[len(head) + 3], [1000, 1000], [4096], random_split(len(wire), rng)]:
+                            o2 = run_case(wire, op, (lambda b, p=plan, w=wire: (p if b == w else [len(b)])), 0)
+                            n += 1
+                            if not all(o2.get(k) == base.get(k) for k in ("res", "errcode", "errmsg", "s1", "s2")):
+                                recs.append({"reply": "long text %d octets" % len(text), "wire": repr(wire[:70]), "op": op,
+                                             "schedule": plan[:6], "obs": repr(o2)[:300], "expl": None,
+                                             "what": "result depends on the segmentation"})
+    return n, recs
+
+
 def run(prop, tier, seed):
     t0 = time.time()
     devs = findings.open_devs("MSClient")
@@ -373,6 +415,10 @@ def run(prop, tier, seed):
             recs.extend(rs)
     if prop in ("C05", "C17"):
         nb, rb = big_literal_cases(prop, tier, seed)
+        n_exec += nb
+        recs.extend(rb)
+    if prop in ("C05", "C09"):
+        nb, rb = big_status_cases(prop, tier, seed)
         n_exec += nb
         recs.extend(rb)
     known, viols = {}, []
